@@ -237,13 +237,20 @@ def all_paths(thorough=False):
 def emit(paths):
     lines = ['import JugModel.Model.ExecLocal', 'namespace Jug.Generated.Worker', 'open Jug.Exec', '',
              '/-- every root-to-leaf path of the real `jug.jug.execution_loop`, for task lists ' + str(SHAPES) + ' (dependency lists), all flag settings',
-             '    (keepGoing, keepFailed, aggressiveUnload), every answer of the environment consistent with what the worker already saw -/',
-             'def paths : List (WPath) := [']
+             '    (keepGoing, keepFailed, aggressiveUnload), every answer of the environment consistent with what the worker already saw',
+             '    (emitted in chunks: one list literal with thousands of elements is slow to elaborate) -/']
     rows = []
     for shape, flags, hx, p in paths:
         deps = '[' + ', '.join('[' + ', '.join(str(d) for d in ds) + ']' for ds in shape) + ']'
         rows.append('  ⟨⟨%s, %s⟩, %s, [%s]⟩' % ('true' if flags[0] else 'false', 'true' if flags[1] else 'false', deps, ', '.join(lean_event(e) for e in p)))
-    lines.append(',\n'.join(rows))
-    lines.append(']')
+    CH = 150
+    names = []
+    for i in range(0, len(rows), CH):
+        nm = 'paths%d' % (i // CH)
+        names.append(nm)
+        lines.append('def %s : List (WPath) := [' % nm)
+        lines.append(',\n'.join(rows[i:i + CH]))
+        lines.append(']')
+    lines.append('def paths : List (WPath) := ' + (' ++ '.join(names) if names else '[]'))
     lines.append('end Jug.Generated.Worker')
     return '\n'.join(lines) + '\n'
